@@ -33,8 +33,18 @@ func init() {
 			"An evaluation = one call judged. Non-trivial = forest with deleted leaves or target sets of size >=2; distinct = distinct (alive pattern, A slots, B slots, order mode).",
 		Assumptions: []string{"SHA-512/256 collision freedom", "reference model correct", "the stand-alone GetMissingPositions sorts its desiredTargets argument: it is given a copy"},
 		MinDistinct: 100,
-		Plan:        func(tier string) []core.Suite { return c14Plan(tier).suites() },
+		Plan: func(tier string) []core.Suite {
+			n := 6
+			if tier == "thorough" {
+				n = 120
+			}
+			return append(c14Plan(tier).suites(), core.Suite{Name: "big", N: n, CaseTimeout: 600})
+		},
 		Run: func(c *core.Ctx) {
+			if c.Suite == "big" {
+				c14Big(c)
+				return
+			}
 			h := c14Plan(c.Tier).history(c)
 			cfgs := []InstCfg{{"mapfull", []uint8{0, 63, 3}[c.Index%3]}, {"mappartial", []uint8{0, 3, 63}[c.Index%3]}, {"mappartial", uint8(c.Rng.Intn(64))}}
 			c14Check(c, histScenario{History: h, Cfgs: cfgs})
@@ -51,6 +61,92 @@ func init() {
 			c14Check(c, s)
 		},
 	})
+}
+
+// c14Big: one request for hundreds of targets against forests started from bare roots, so that a
+// single VerifyPartialProof call has to take several hundred hashes from the caller (added after
+// seeded change C14i, an 8-bit cursor into the supplied hashes).  The case is regenerated from
+// (seed, index); the recorded scenario is the history plus the target slots.
+func c14Big(c *core.Ctx) {
+	tag := uint64(c.Seed)<<32 | uint64(c.Index) | 1<<48
+	n0 := 600 + c.Rng.Intn(1500)
+	h := gen.History{Tag: tag, Blocks: []gen.Block{{Adds: n0}}}
+	var dels []int
+	for sl := 0; sl < n0; sl++ {
+		if c.Rng.Intn(20) == 0 {
+			dels = append(dels, sl)
+		}
+	}
+	h.Blocks = append(h.Blocks, gen.Block{Dels: dels, Adds: c.Rng.Intn(5)})
+	m := &rm.Model{}
+	var ctr uint64
+	for _, b := range h.Blocks {
+		gen.ApplyToModel(m, b, tag, &ctr)
+	}
+	f := m.Forest()
+	live := m.Live()
+	c.Rng.Shuffle(len(live), func(i, j int) { live[i], live[j] = live[j], live[i] })
+	slots := live[:len(live)/3+c.Rng.Intn(len(live)/3)]
+	c.SetScenario(map[string]any{"history": h, "target_slots": slots})
+	var ha []Hash
+	for _, sl := range slots {
+		ha = append(ha, m.Leaves[sl])
+	}
+	pa, _ := f.ProofForHashes(ha)
+	desc := fmt.Sprintf("forest of %d leaves (%d deleted), %d targets", f.N, len(dels), len(slots))
+	for _, full := range []bool{false, true} {
+		for _, remember := range []bool{false, true} {
+			mp := u.NewMapPollardFromRoots(cloneHashes(f.Roots), f.N, full)
+			kind := "mappartial"
+			if full {
+				kind = "mapfull"
+			}
+			c.Eval(1)
+			got := mp.GetMissingPositions(cloneU64(pa.Targets))
+			canon, _ := f.CanonProofPos(pa.Targets)
+			var exp []uint64
+			for _, p := range canon {
+				if _, ok := mp.Nodes.Get(rm.Translate(p, f.H, mp.TotalRows)); !ok {
+					exp = append(exp, p)
+				}
+			}
+			if !eqU64(got, exp) {
+				c.Violate(kind+".GetMissingPositions", "missing-positions", "big", fmt.Sprintf("%s: got %d positions, want %d", desc, len(got), len(exp)))
+				return
+			}
+			c.Max("max_missing_positions_in_one_request", len(got))
+			var ph []Hash
+			for _, p := range got {
+				ph = append(ph, f.Nodes[p].Hash)
+			}
+			c.Eval(1)
+			if err := mp.VerifyPartialProof(cloneU64(pa.Targets), cloneHashes(ha), cloneHashes(ph), remember); err != nil {
+				c.Violate(kind+".VerifyPartialProof", "true-completion-rejected", "big", fmt.Sprintf("%s, %d hashes supplied, remember=%v: %v", desc, len(ph), remember, err))
+				return
+			}
+			if remember && !full {
+				c.Eval(1)
+				pr, err := mp.Prove(cloneHashes(ha))
+				if err != nil || !eqProof(pr, pa) {
+					c.Violate(kind+".Prove", "remembered-set-not-provable-canonically", "big", fmt.Sprintf("%s: %v", desc, err))
+					return
+				}
+			}
+			if len(ph) > 0 && !remember {
+				bad := cloneHashes(ph)
+				k := c.Rng.Intn(len(bad))
+				bad[k][5] ^= 0x40
+				mp2 := u.NewMapPollardFromRoots(cloneHashes(f.Roots), f.N, full)
+				c.Eval(1)
+				if err := mp2.VerifyPartialProof(cloneU64(pa.Targets), cloneHashes(ha), bad, false); err == nil {
+					c.Violate(kind+".VerifyPartialProof", "corrupted-completion-accepted", "big", fmt.Sprintf("%s: supplied hash %d of %d corrupted", desc, k, len(bad)))
+					return
+				}
+			}
+			c.Distinct(core.FP(f.N, len(slots), full, remember))
+		}
+	}
+	c.Count("big_partial_proof_requests", 1)
 }
 
 func leavesUnder(n *rm.Node, out *[]int) {
